@@ -7,13 +7,15 @@ MODULES = ['DsdVerif.Props.C07']
 GEN_FILES = []
 THEOREMS = []          # filled below from THEOREM_NAMES that exist in Props/C07.lean
 THEOREM_NAMES = ['rotateOnce_pairs', 'rotateOnce_single', 'rotateOnce_strands', 'rotate_period', 'rotatePtOnce_spec',
-                 'rotationsPt_length', 'wrap_eq_emod']
+                 'rotationsPt_length', 'wrap_eq_emod', 'rotateOnce_pairtable', 'rotatePtOnce_inverts',
+                 'connected_rotation_invariant']
 THEOREMS = ['Dsd.C07.' + t for t in THEOREM_NAMES]
 ASSUMPTIONS = [
     'rotate_complex_once / rotate_complex_pt are hand-modelled (Model/Complex.lean: rotateOnce, rotatePtOnce, rotationsPt) and tied '
     'to the code by the correspondence streams rot1 / rotpt',
-    'the theorem rotateOnce_pairs is stated on list positions (break tokens carried as unpaired symbols); the translation of '
-    'positions to (strand, index) loci is validated by the oracle using rotate_pairtable_loc on the real objects',
+    'rotateOnce_pairs is stated on list positions (break tokens carried as unpaired symbols); rotateOnce_pairtable lifts it to pair '
+    'tables over (strand, index) loci with the re-indexing rotate_pairtable_loc(., 1); the implementation of rotate_pairtable_loc '
+    'itself is compared with that mapping by the oracle on the real objects',
 ]
 MANIFEST = {
     'text': 'Full for the model of the fast rotation: rotateOnce_pairs (well-formed in => succeeds, stays balanced, every name and '
@@ -23,7 +25,7 @@ MANIFEST = {
             'exhaustive correspondence over every well-formed structure up to a bounded size; the generators, the object methods '
             'rotate()/rotate_pt(), rotate_pairtable_loc and input immutability are checked on the real code by an independent '
             'label-transport oracle.',
-    'note': 'Locus re-indexing between list positions and (strand, index) is checked by the oracle and correspondence, not by a theorem; '
+    'note': 'The Python function rotate_pairtable_loc is compared with the proved re-indexing by the oracle (it is one line); '
             'trusted base as in DESIGN.md section 3.',
     'technique': 'Lean 4 proof: cyclic shift of a non-crossing involution + uniqueness of matchings; correspondence check',
 }
